@@ -55,49 +55,45 @@ def montKey (x : Fp) : Nat := (x.val * 2^256 % P) % 65536
 def dlogLUT : List (Nat × Nat) :=
   (List.range 256).map fun i => (montKey (g8 ^ i), (256 - i) % 256)
 
-def dlogArray : Array Nat := Id.run do
-  let mut a := Array.replicate 65536 0
-  for (k, v) in dlogLUT do
-    a := a.set! k v
-  return a
+/-- Go map lookup on the 256-entry table (the keys are pairwise distinct, `C17.lut_keys_distinct`);
+a missing key gives 0 -/
+def negDlogSmall (x : Fp) : Nat :=
+  ((dlogLUT.find? (fun e => e.1 == montKey x)).map (·.2)).getD 0
 
-/-- Go map lookup: missing key gives 0 -/
-def negDlogSmall (lut : Array Nat) (x : Fp) : Nat := lut[montKey x]!
+/-- `n` squarings -/
+def sqTimes : Nat → Fp → Fp
+  | 0, x => x
+  | n + 1, x => sqTimes n (x * x)
 
-def sq8 (x : Fp) : Fp := Id.run do
-  let mut y := x
-  for _ in [0:8] do y := y * y
-  return y
+def sq8 (x : Fp) : Fp := sqTimes 8 x
+
+/-- `Π_{j<cnt} blocks[j + off][(n >> 8j) & 255]`, multiplied onto `acc` in the order of the loop -/
+def mulBlocks (n off : Nat) : Nat → Nat → Fp → Fp
+  | 0, _, acc => acc
+  | cnt + 1, j, acc => mulBlocks n off cnt (j + 1) (acc * precompBlock (j + off) ((n >>> (8 * j)) % 256))
 
 /-- mirror of `invSqrtEqDyadic`: `none` when the dlog is odd, else the new `z` -/
-def invSqrtEqDyadic (lut : Array Nat) (z : Fp) : Option Fp := Id.run do
+def invSqrtEqDyadic (z : Fp) : Option Fp :=
   let p0 := z
   let p1 := sq8 p0
   let p2 := sq8 p1
   let p3 := sq8 p2
-  let powers := #[p0, p1, p2, p3]
-  let mut negExp := negDlogSmall lut p3
-  if negExp % 2 = 1 then return none
-  for i in [1:4] do
-    let mut t2 := powers[3 - i]!
-    for j in [0:i] do
-      t2 := t2 * precompBlock (j + 3 - i) ((negExp >>> (8 * j)) % 256)
-    let newBits := negDlogSmall lut t2
-    negExp := negExp ||| (newBits <<< (8 * i))
-  negExp := negExp >>> 1
-  let mut r : Fp := 1
-  for i in [0:4] do
-    r := r * precompBlock i ((negExp >>> (8 * i)) % 256)
-  return some r
+  let n0 := negDlogSmall p3
+  if n0 % 2 = 1 then none
+  else
+    let n1 := n0 ||| (negDlogSmall (mulBlocks n0 2 1 0 p2) <<< 8)
+    let n2 := n1 ||| (negDlogSmall (mulBlocks n1 1 2 0 p1) <<< 16)
+    let n3 := n2 ||| (negDlogSmall (mulBlocks n2 0 3 0 p0) <<< 24)
+    some (mulBlocks (n3 >>> 1) 0 4 0 1)
 
 /-- mirror of `SqrtPrecomp` -/
-def Fp.sqrtPrecomp (lut : Array Nat) (v : Fp) : Option Fp :=
+def Fp.sqrtPrecomp (v : Fp) : Option Fp :=
   if v.val = 0 then some 0
   else
     let acc := v ^ ((Qodd - 1) / 2)
     let rootOfUnity := acc * acc * v
     let candidate := acc * v
-    match invSqrtEqDyadic lut rootOfUnity with
+    match invSqrtEqDyadic rootOfUnity with
     | none => none
     | some z => some (candidate * z)
 
